@@ -798,6 +798,8 @@ def deductive(ctx):
     from pyvc.verify import verify, summarize
 
     summarize(ctx, verify(ctx, NS.contract()))
+    # Node._get_upstream_states: per input, the split upstream node is recorded under its name with the connecting field
+    summarize(ctx, verify(ctx, NS.upstream_contract()))
 
 
 def run(ctx):
